@@ -432,8 +432,32 @@ func runC06(r *Run, p *Prog) {
 		punct(structReader, "the struct/enum reader", '(', ')')
 		punct(methodReader, "the method reader", '-', '>')
 		// the two arrow bytes are consecutive reads
+		// (after '-' is consumed, the next cursor event is the read that is compared with '>': nothing is read, skipped
+		// or stepped back in between - whether the two reads are written side by side or as two `expect` calls)
 		sites := a.readSites(methodReader)
-		cons := len(sites) == 2 && sites[0].Block() == sites[1].Block() && instrIndex(sites[1]) == instrIndex(sites[0])+1
+		cons := false
+		for _, s0 := range sites {
+			o := a.analyseRead(s0)
+			nx := o.Next['-']
+			if !o.Consumed.has('-') || o.Pushed.has('-') || len(nx) == 0 {
+				continue
+			}
+			all := true
+			for _, e := range nx {
+				c2, ok := e.(*ssa.Call)
+				if !ok || c2 == s0 || c2.Call.StaticCallee() != a.next {
+					all = false
+					continue
+				}
+				o2 := a.analyseRead(c2)
+				if !o2.Consumed.has('>') {
+					all = false
+				}
+			}
+			if all {
+				cons = true
+			}
+		}
 		r.Ob("Q9", shortName(methodReader), "'-' and '>' are two consecutive reads", methodReader.Pos(), cons, "")
 		// loop continuation requires ','
 		for _, b := range structReader.Blocks {
